@@ -228,6 +228,8 @@ CHECKS['C08'] = dict(
         U('inpkg', 'TestVerifC08_LatestRequestWins', q(), q(), pkg='src'),
         U('inpkg', 'TestVerifC08_CacheMachine', q(8000, 16), q(240000, 16, cap=1800), pkg='src'),
         U('inpkg', 'TestVerifC08_MatcherLoop', q(1600, 16, cap=600), q(32000, 16, cap=2400), pkg='src'),
+        U('proc', 'TestVerifC08_OneShotRequests', q(cap=600), q(cap=600), needs_fzf=True),
+        U('proc', 'TestVerifC08_ProcSessions', q(192, 16, cap=900), q(3200, 16, cap=3000), needs_fzf=True),
     ])
 
 CHECKS['C13'] = dict(
